@@ -33,4 +33,248 @@ theorem keepLast_spec {α : Type} [DecidableEq α] (l₁ l₂ : List α) :
 example : batchXml [⟨pass, some "D:\\b\\1.d".toList⟩, ⟨"Fail".toList, some "2.d".toList⟩,
     ⟨pass, some "/x/3.d".toList⟩, ⟨pass, some "1.d".toList⟩] = ["3.d".toList, "1.d".toList] := by decide
 
+/-- `datafile[max(map(datafile.rfind, "\\/")) + 1:]` is the part after the last `\` or `/`: it
+contains no separator, and the input is either that part itself or `prefix ++ separator ++ part`. -/
+theorem basename_spec (s : Name) :
+    basename s = basenameSpec s ∧
+    (∀ c ∈ basename s, c ≠ '\\' ∧ c ≠ '/') ∧
+    (basename s = s ∨ ∃ pre c, (c = '\\' ∨ c = '/') ∧ s = pre ++ c :: basename s) := by
+  refine ⟨basename_eq_spec s, ?_, ?_⟩
+  · rw [basename_eq_spec]
+    intro c hc
+    unfold basenameSpec at hc
+    have := List.mem_takeWhile_imp (List.mem_reverse.mp hc)
+    simp only [isSep, Bool.not_eq_true', Bool.or_eq_false_iff, decide_eq_false_iff_not] at this
+    exact this
+  · rw [basename_eq_spec]
+    unfold basenameSpec
+    have hsplit := List.takeWhile_append_dropWhile (p := fun c => !isSep c) (l := s.reverse)
+    cases hd : List.dropWhile (fun c => !isSep c) s.reverse with
+    | nil =>
+      left
+      rw [hd, List.append_nil] at hsplit
+      rw [hsplit, List.reverse_reverse]
+    | cons c rest =>
+      right
+      refine ⟨rest.reverse, c, ?_, ?_⟩
+      · have := List.head_dropWhile_not (fun c => !isSep c) (l := s.reverse) (by rw [hd]; simp)
+        simp only [hd, List.head_cons] at this
+        exact (isSep_iff c).mp (by simpa using this)
+      · rw [hd] at hsplit
+        have := congrArg List.reverse hsplit
+        rw [List.reverse_reverse, List.reverse_append, List.reverse_cons, List.append_assoc] at this
+        simpa using this.symm
+
+example : basename "D:\\Agilent\\DATA/x.b\\010.d".toList = "010.d".toList := by decide
+example : basename "010.d".toList = "010.d".toList := by decide
+
+/-- The CSV batch-log reader (as repaired) agrees with the XML reader on the same log, for every
+log whose file names fit the `U264` column and whose result texts do not merely *start* with
+`Pass` (the `U4` column truncates): any failures, repeats and path styles. -/
+theorem batchCsv_eq_batchXml (log : List LogEntry) (rows : List CsvRow)
+    (hsame : List.Forall₂ (fun e r => e.file = some r.file ∧ r.result = e.result) log rows)
+    (hres : ∀ e ∈ log, e.result.take 4 = pass → e.result = pass)
+    (hlen : ∀ r ∈ rows, r.file.length ≤ 264) :
+    batchCsv rows = batchXml log := by
+  rw [batchCsv_eq, batchXml_eq, csvNames_eq_xmlNames log rows hsame hres hlen]
+
+example : List.Forall₂ (fun e r => e.file = some r.file ∧ r.result = e.result)
+    ([⟨pass, some "a\\1.d".toList⟩, ⟨"Fail".toList, some "2.d".toList⟩, ⟨pass, some "1.d".toList⟩] : List LogEntry)
+    ([⟨1, "a\\1.d".toList, pass⟩, ⟨2, "2.d".toList, "Fail".toList⟩, ⟨3, "1.d".toList, pass⟩] : List CsvRow) := by
+  repeat constructor
+
+/-- The unrepaired CSV loop (append without removal) disagrees with the XML reader on the log
+`1.d, 2.d (Fail), 3.d, 1.d` — kept as documentation of the defect fixed by 92e0f8d. -/
+theorem batchCsv_unrepaired_wrong :
+    let log : List LogEntry := [⟨pass, some "1.d".toList⟩, ⟨"Fail".toList, some "2.d".toList⟩,
+      ⟨pass, some "3.d".toList⟩, ⟨pass, some "1.d".toList⟩]
+    (log.filterMap (fun e => if e.result = pass then e.file.map basename else none)) ≠ batchXml log := by
+  decide
+
+/-- Method-file reader vs log readers: when nothing failed or was repeated and the SampleIDs
+increase in acquisition order (`planned` is the sample list in that order), the method-file reader
+returns the log's list from ANY document order of the `SampleParameter` elements. -/
+theorem acq_eq_log (log : List LogEntry) (samples planned : List Sample)
+    (hperm : samples.Perm planned) (h : acqLogHyp log planned = true) :
+    acqMethod samples = batchXml log := by
+  simp only [acqLogHyp, Bool.and_eq_true, List.all_eq_true, decide_eq_true_eq] at h
+  obtain ⟨⟨⟨hpass, hnodup⟩, hinc⟩, hnames⟩ := h
+  have hp : ∀ e ∈ log, e.result = pass := fun e he => (hpass e he).1
+  unfold acqMethod
+  rw [sortByInt_of_perm_strict samples planned hperm hinc, batchXml_eq, xmlNames_of_allPass log hp,
+    keepLast_of_nodup _ (nodup_filterMap_id _ hnodup), ← hnames]
+  simp [List.filterMap_map]
+
+example : acqLogHyp [⟨pass, some "b\\10.d".toList⟩, ⟨pass, some "b\\9.d".toList⟩]
+    [⟨some 3, some "10.d".toList⟩, ⟨some 7, some "9.d".toList⟩] = true := by decide
+
+/-- The directory-scan fallback returns exactly the data directories of the listing, ascending in
+the number formed by the digits of their names. -/
+theorem byNumber_sorted_perm (listing : List Entry) :
+    (byNumber listing).Perm (dataDirs listing) ∧
+    (byNumber listing).Pairwise (fun a b => digitsVal a ≤ digitsVal b) :=
+  ⟨Pew.SortAgilent.sortKey_perm digitsVal _, Pew.SortAgilent.sortKey_sorted digitsVal _⟩
+
+/-- ... and, when the numbers are pairwise distinct, it does not depend on the order in which the
+directory is listed. -/
+theorem byNumber_listing_independent (l₁ l₂ : List Entry) (hp : l₁.Perm l₂)
+    (hinj : ∀ a ∈ dataDirs l₁, ∀ b ∈ dataDirs l₁, digitsVal a = digitsVal b → a = b) :
+    byNumber l₁ = byNumber l₂ :=
+  Pew.SortAgilent.sortKey_perm_invariant digitsVal _ _ (dataDirs_perm l₁ l₂ hp) hinj
+
+/-- ... and equals the insertion-sort specification. -/
+theorem byNumber_eq_spec (listing : List Entry)
+    (hinj : ∀ a ∈ dataDirs listing, ∀ b ∈ dataDirs listing, digitsVal a = digitsVal b → a = b) :
+    byNumber listing = byNumberSpec listing := by
+  have hs := foldl_insert_perm_sorted (dataDirs listing) [] List.Pairwise.nil
+  have hp : (byNumberSpec listing).Perm (dataDirs listing) := by simpa [byNumberSpec] using hs.1
+  unfold byNumber sortByNat
+  apply Pew.SortAgilent.mergeSort_eq_sorted_of_perm _ (Pew.SortAgilent.keyLe_trans digitsVal)
+    (Pew.SortAgilent.keyLe_total digitsVal) _ _ hp.symm
+  · exact hs.2.imp (fun h => by simpa using h)
+  · intro a ha b hb h1 h2
+    simp only [decide_eq_true_eq] at h1 h2
+    exact hinj a (hp.mem_iff.mp ha) b (hp.mem_iff.mp hb) (Nat.le_antisymm h1 h2)
+
+example : byNumber [⟨"10.d".toList, true⟩, ⟨"Method".toList, true⟩, ⟨"9.D".toList, true⟩,
+    ⟨"100.d".toList, true⟩, ⟨"7.d".toList, false⟩] = ["9.D".toList, "10.d".toList, "100.d".toList] := by
+  rw [byNumber_eq_spec _ (by decide)]; decide
+
+/-! ## binary decoding -/
+
+/-- Every scan `r < R` of every mass `j < k` — for every `R ≥ 1`, `k ≥ 1`, so `k = 1` and `k = 2`
+are included — decodes to the Analog value of profile record `r`, column `j`, and the clip is not
+active, PROVIDED the scan records say `SpectrumOffset = h + r·ByteCount` with `h < ByteCount`. -/
+theorem binary_pixel {α : Type} (R k h bc : Nat) (scans : List ScanRec) (profile : List (List α))
+    (L : Layout R k h bc scans profile) (r j : Nat) (hr : r < R) (hj : j < k) :
+    (∃ v, (profile[r]?).bind (fun row => row[j]?) = some v ∧
+      ((decode (List.range' 1 k) scans profile)[j]?).bind (fun col => col[r]?) = some (some v)) ∧
+    r * k + j ≤ R * k - 1 := by
+  refine ⟨?_, clip_inactive R k r j hr hj⟩
+  obtain ⟨v, hv⟩ := profile_getElem_some L r j hr hj
+  refine ⟨v, hv, ?_⟩
+  unfold decode
+  rw [List.getElem?_map, List.getElem?_range' (by omega)]
+  simp only [List.length_range', Option.map_some, Option.bind_some]
+  rw [Nat.add_comm 1 (1 * j), Nat.one_mul, decodeMass_getElem L r j hr hj, hv]
+
+/-- non-vacuity: one mass, three scans, offsets starting at 0 -/
+example : Layout 3 1 0 28 [⟨0, 28, 0⟩, ⟨28, 28, 0⟩, ⟨56, 28, 0⟩] [[10], [20], [30]] :=
+  ⟨rfl, rfl, by decide, by decide, by decide⟩
+
+/-- The hypothesis `h < ByteCount` is needed, and the layout of the fixtures (`h = 68`, the header
+of MSProfile.bin, `ByteCount = 28·k`) violates it for `k = 1`: three scans with Analog values
+10, 20, 30 decode to 30, 30, 30. -/
+theorem binary_header_offset_k1_wrong :
+    decode [1] [⟨68, 28, 0⟩, ⟨96, 28, 0⟩, ⟨124, 28, 0⟩] [[(10 : Nat)], [20], [30]]
+      = [[some 30, some 30, some 30]] := by decide
+
+/-- ... and for `k = 2` (`ByteCount = 56`): every scan shows the next scan's values. -/
+theorem binary_header_offset_k2_wrong :
+    decode [1, 2] [⟨68, 56, 0⟩, ⟨124, 56, 0⟩, ⟨180, 56, 0⟩] [[(10 : Nat), 11], [20, 21], [30, 31]]
+      = [[some 20, some 30, some 31], [some 21, some 31, some 31]] := by decide
+
+/-- ... while for `k ≥ 3` the fixture layout satisfies the hypothesis. -/
+theorem fixture_header_small (k : Nat) (hk : 3 ≤ k) : 68 < 28 * k := by omega
+
+/-! ## mass table -/
+
+/-- Element `i` of the mass table is the `i`-th `Masses` element of MSTS_XSpecific.xml, its m/z
+replaced by the last MSTS_XAddition row carrying index `i` (precursor; plus `->product` for MS/MS),
+whatever the document order of the XAddition rows; the table is in id order 1..k. -/
+theorem massInfo_spec (xs : List XMass) (xadd : Option (Bool × List XAdd))
+    (hidx : ∀ msms rows, xadd = some (msms, rows) → ∀ a ∈ rows, 1 ≤ a.index ∧ a.index ≤ xs.length) :
+    massInfo xs xadd = some (massInfoSpec xs xadd) ∧
+    (massInfoSpec xs xadd).map (·.id) = List.range' 1 xs.length := by
+  have hid : (xspecific xs).map (·.id) = List.range' 1 xs.length := by
+    unfold xspecific
+    rw [List.map_map]
+    apply List.ext_getElem
+    · simp
+    · intro i h1 h2
+      simp [Nat.add_comm]
+  constructor
+  · cases xadd with
+    | none => simp [massInfo, massInfoSpec]
+    | some p =>
+      obtain ⟨msms, rows⟩ := p
+      have hall : rows.all (fun a => (xspecific xs).any (fun m => m.id = a.index)) = true := by
+        rw [List.all_eq_true]
+        intro a ha
+        have := hidx msms rows rfl a ha
+        rw [List.any_eq_true]
+        have hmem : a.index ∈ (xspecific xs).map (·.id) := by
+          rw [hid, List.mem_range']
+          exact ⟨a.index - 1, by omega, by omega⟩
+        obtain ⟨m, hm, e⟩ := List.mem_map.mp hmem
+        exact ⟨m, hm, by simpa using e⟩
+      simp only [massInfo, hall, if_true, massInfoSpec]
+      rw [foldl_applyAdd]
+      congr 1
+      apply List.map_congr_left
+      intro m hm
+      have hm2 : m.mz2 = none := by
+        unfold xspecific at hm
+        obtain ⟨x, _, e⟩ := List.mem_map.mp hm
+        rw [← e]
+      cases List.find? (fun a => decide (a.index = m.id)) rows.reverse with
+      | none => rfl
+      | some a => simp [updMass, hm2]
+  · rw [← hid]
+    unfold massInfoSpec
+    rw [List.map_map]
+    apply List.map_congr_left
+    intro m _
+    simp only [Function.comp]
+    cases xadd with
+    | none => rfl
+    | some p =>
+      obtain ⟨msms, rows⟩ := p
+      simp only
+      cases List.find? (fun a => decide (a.index = m.id)) rows.reverse <;> rfl
+
+/-! ## CSV import -/
+
+/-- `csv_valid_lines` yields exactly the header line and the data lines: preamble lines that do not
+start with `Time`, a header that does, data lines with the header's comma count, footer lines with
+a different comma count that do not start with `Time`. -/
+theorem validLines_spec (pre data foot : List Name) (header : Name)
+    (hpre : ∀ l ∈ pre, startsWithTime l = false) (hh : startsWithTime header = true)
+    (hdata : ∀ l ∈ data, countCommas l = countCommas header)
+    (hfoot : ∀ l ∈ foot, countCommas l ≠ countCommas header ∧ startsWithTime l = false) :
+    validLines false 0 (pre ++ header :: (data ++ foot)) = header :: data := by
+  rw [validLines_pre pre _ hpre, validLines]
+  simp only [Bool.false_and, Bool.false_eq_true, if_false, hh, if_true]
+  rw [validLines_past _ data foot hdata hfoot]
+
+example : validLines false 0 ["D:\\x\\1.d".toList, "Intensity Vs Time,CPS".toList, "Time [Sec],P31".toList,
+    "0.5,1.25".toList, "1.0,2.50".toList, "".toList, "   Printed: now".toList]
+    = ["Time [Sec],P31".toList, "0.5,1.25".toList, "1.0,2.50".toList] := by decide
+
+/-- The reported scan time: the mean of all consecutive differences of a `rows × m` table of times
+is the sum over the rows of (last − first), divided by `rows·(m − 1)`. -/
+theorem meandiff_telescope (times : List (List Rat)) (m : Nat) (hm : 2 ≤ m)
+    (hrows : ∀ row ∈ times, row.length = m) :
+    meanDiff times = meanDiffSpec times m := by
+  unfold meanDiff meanDiffSpec
+  have hlen : ((times.map diffs).flatten).length = times.length * (m - 1) := by
+    have := length_flatten_const (times.map diffs) (m - 1) (by
+      intro l hl
+      obtain ⟨row, hr, e⟩ := List.mem_map.mp hl
+      rw [← e, length_diffs, hrows row hr])
+    simpa using this
+  have hsum : ((times.map diffs).flatten).sum = (times.map (fun row => row.getLastD 0 - row.headD 0)).sum := by
+    rw [sum_flatten_rat, List.map_map]
+    congr 1
+    apply List.map_congr_left
+    intro row hr
+    have := hrows row hr
+    cases row with
+    | nil => simp at this; omega
+    | cons a l => simp only [Function.comp, sum_diffs, List.headD_cons]
+  simp only [hlen, hsum]
+
+example : meanDiff [[1, 3, 4], [0, 1, 5]] = 2 := by
+  simp [meanDiff, diffs]; norm_num
+
 end Pew.Agilent
